@@ -24,6 +24,12 @@ use tokio_util::sync::CancellationToken;
 use verif_harness::*;
 
 const HANG_TIMEOUT: Duration = Duration::from_millis(2500);
+/// after a few observed hangs the remaining runs use a short time-out (a broken build would
+/// otherwise take an hour to report the same failure 1500 times)
+static HANGS: AtomicU64 = AtomicU64::new(0);
+fn hang_timeout() -> Duration {
+    if HANGS.load(SeqCst) >= 3 { Duration::from_millis(300) } else { HANG_TIMEOUT }
+}
 
 #[derive(Clone, Copy, PartialEq, Debug)]
 enum Beh {
@@ -263,7 +269,7 @@ impl C42 {
                 let handle = if p.cancellable { spawn_cancellable(tokens[p.tok as usize].clone(), inner) } else { spawn(inner) };
                 let log = log.clone();
                 joiners.push(tokio::spawn(async move {
-                    if tokio::time::timeout(HANG_TIMEOUT, handle.join()).await.is_err() {
+                    if tokio::time::timeout(hang_timeout(), handle.join()).await.is_err() {
                         return false;
                     }
                     let j = stamp();
@@ -289,7 +295,12 @@ impl C42 {
         let mut evs: Vec<(u64, String)> = log.lock().unwrap().drain(..).collect();
         evs.sort();
         self.last_obs = Some(if evs.is_empty() { "-".into() } else { evs.into_iter().map(|(_, t)| t).collect::<Vec<_>>().join(",") });
-        if hang { "hang".into() } else { "joined".into() }
+        if hang {
+            HANGS.fetch_add(1, SeqCst);
+            "hang".into()
+        } else {
+            "joined".into()
+        }
     }
 }
 
@@ -418,6 +429,7 @@ impl Prop for C42 {
         let races = if thorough { 30000 } else { 1500 };
         for _ in 0..races {
             out.op(format!("race n={} seed={}", rng.usize(1, 5), rng.next_u64() >> 16), "race", true);
+            out.op("reset", "race", false);
         }
     }
 
